@@ -80,7 +80,12 @@ META = dict(
          'Spec.evalPath on the model\'s nested JSON with the model query and the model with the implementation on every '
          'query, and the oracle compares the implementation with an evaluator over its own nested JSON, its flat lists '
          'filtered by label, post-hoc subset selection, the compressed/uncompressed and compiled/plain decodings, on '
-         'generated messages, the C09 shapes and the sample files x all existing paths up to depth 6 x slices x selectors.',
+         'generated messages, the C09 shapes and the sample files x all existing paths up to depth 6 x slices x selectors. '
+         'Slices are drawn from the grid relative to the number n of matches at the step (start, stop in none, -(n+1)..n+1; step in '
+         'none, 1, 2, -1, -2; indices): the whole grid for n = 0..6 at child, attribute and descendant steps and at the @ selector '
+         '(1..6 subsets) on templates built to have sibling lists with exactly n matches, a sample at the sites of every other '
+         'message; messages include 2-6 subsets of equal structure whose bitmaps (222/223/224/225/232, 236/237, 235) differ, and '
+         'the json-eval / bare-id / selector oracles also run on a copy whose values are replaced by their flat positions.',
     technique='Lean 4 theorems (structural induction over the node tree / the path, list reasoning about enumerate-filter-'
               'slice-sort) + checked model/implementation correspondence + property oracle on the implementation '
               '(query vs evaluator over the implementation\'s own nested JSON)',
